@@ -136,6 +136,14 @@ func isNaNVal(o ugo.Object) bool {
 
 func kindOf(o ugo.Object) string { return o.TypeName() }
 
+func isNumericKind(o ugo.Object) bool {
+	switch o.(type) {
+	case ugo.Int, ugo.Uint, ugo.Float, ugo.Char, ugo.Bool:
+		return true
+	}
+	return false
+}
+
 // cmpImpl returns the boolean result of a relational operator, if defined.
 func cmpImpl(a ugo.Object, tok token.Token, b ugo.Object) (r bool, ok bool) {
 	defer func() {
@@ -180,6 +188,23 @@ func opsOracle(c *Ctx, vm *vmOps, a, b ugo.Object) {
 		viaVM := vm.run(vm.bin[t.name], a, b, nil)
 		if viaVM != direct && !(strings.HasPrefix(direct, "err InvalidOperatorError") && strings.HasPrefix(viaVM, "err InvalidOperatorError")) {
 			c.Violation(PropViolation{"C15", "VM " + t.src + " gives " + viaVM + " but BinaryOp gives " + direct, in(), "C15:vm-binop:" + t.name})
+		}
+	}
+	// documented operand types (docs/operators.md): an arithmetic, bitwise or shift operator with a
+	// numeric left operand and a right operand that is not int/uint/float/char/bool is unsupported
+	// and must raise TypeError (char + string is the documented exception)
+	if isNumericKind(a) && !isNumericKind(b) {
+		for _, t := range binToks[:11] {
+			if _, isChar := a.(ugo.Char); isChar && t.tok == token.Add {
+				if _, isStr := b.(ugo.String); isStr {
+					continue
+				}
+			}
+			got := safeBinop(a, t.tok, b, nil)
+			if !strings.HasPrefix(got, "err TypeError") {
+				c.Violation(PropViolation{"C15", "unsupported operand types for " + t.src + " give " + got + " instead of TypeError", in(),
+					"C15:unsupported-not-typeerror:" + t.name + ":" + kindOf(a) + "," + kindOf(b)})
+			}
 		}
 	}
 	lt, okLt := cmpImpl(a, token.Less, b)
